@@ -8,7 +8,7 @@
    system with the modes the property allows. *)
 From Coq Require Import Permutation.
 From Oras Require Import Base.Prelude Generated.GC12 Model.TarRoundTrip Model.FileAnnotations
-  Proofs.TarRoundTrip Proofs.TarWalkOrder Proofs.TarListingOrder Proofs.TarRootMode Proofs.TarUnprivileged.
+  Proofs.TarRoundTrip Proofs.TarWalkOrder Proofs.TarListingOrder Proofs.TarRootMode Proofs.TarUnprivileged Proofs.TarSourceFacts.
 
 (* Round trip at full strength: every path of the restored directory -- the directory itself
    included -- is the path of the source tree: same kind, bytes, link target, and mode (minus
@@ -303,6 +303,25 @@ Theorem C12_listing_order_irrelevant :
     same_tree t t' -> wf_treeb t = true -> tar_entries pre repro t = tar_entries pre repro t'.
 Proof. exact listing_order_irrelevant. Qed.
 Print Assumptions C12_listing_order_irrelevant.
+
+(* The statements of content/file that the hand-written model mirrors have the shape it was
+   written against (translator kinds c12_bodyhas / c12_intlit, regenerated on every run): the
+   mask arithmetic, last-entry-wins and directories-only of restoreDirModes, its call at io.EOF
+   only, mode|0700 at creation, the chmod of regular files only, the header normalisation and
+   the root resolution of tarDirectory, the digest comparison after the extraction, the
+   ForceCAS test before restoring a skipped manifest's successors, the unpack test. *)
+Theorem C12_source_facts :
+  c12_fact_narrow && c12_fact_exact && c12_fact_special && c12_fact_lastwins && c12_fact_onlydirs &&
+  c12_fact_at_eof && c12_fact_chmod_files && c12_fact_mkdir && c12_fact_baselink &&
+  c12_fact_ids && c12_fact_times && c12_fact_rootlink && c12_fact_name &&
+  c12_fact_verify_after && c12_fact_skip_restore && c12_fact_unpack_test = true.
+Proof. exact source_facts. Qed.
+Print Assumptions C12_source_facts.
+
+Theorem C12_source_literals :
+  N.land c12_dir_owner_bits owner_wx = owner_wx /\ c12_dir_owner_bits <= 511 /\ c12_ensure_dir_perm = 511.
+Proof. exact source_literals. Qed.
+Print Assumptions C12_source_literals.
 
 (* The three annotations Add writes do not clobber each other (keys regenerated from
    content/file/file.go) and make Store.push unpack unless SkipUnpack. *)
